@@ -1,4 +1,4 @@
-package c09
+package jgram
 
 // Statements and blocks.
 
